@@ -25,6 +25,7 @@ func init() {
 			"Not decided: combinatorics of overlapping selectors beyond these clauses.",
 		Rules: []Rule{
 			{Name: "ALERT", Doc: "predicates, append-under-predicate, keep/clear pairing, fallback guard", MinInstances: 7, Run: runAlertRules},
+			{Name: "LOOPVAR", Doc: "no pointer to a per-loop (go 1.18) iteration variable is kept in the result: each entity gets its own copy", MinInstances: 0, Run: func(c *Ctx) { runLoopVarAlias(c, realtimeFns(c), "LOOPVAR") }},
 			{Name: "A3", Doc: "selector fields bound to wire fields", MinInstances: 35, Run: runWireTable},
 			{Name: "MERGE", Doc: "alert trips merged into Trips", MinInstances: 7, Run: runMergeRules},
 			{Name: "G6", Doc: "fallback entities in deterministic order", MinInstances: 1, Run: func(c *Ctx) { runG6(c, c.anchors("gtfs:parseAlert", "gtfs:ParseRealtime")) }},
